@@ -536,9 +536,13 @@ def check_c08(ctx):
         # narrowing (documented): an instance whose allocation was moved to
         # another partition / other traits is outside C08's quantifier and is
         # governed by C03 (it must leave that server).
+        # (a pending lease renewal is C07's listed exception as well: the
+        # renewal path may move the instance; nothing in this snapshot sets
+        # the flag outside the harness's one-shot renew op)
         eligible = (not pre.blacklisted and
                     rank.get(name, (UNPLACED,))[0] != UNPLACED and
                     _identity_valid(ctx, name, pre) and
+                    not pre.renew and
                     _valid_for(ctx, name, pre.server) is None)
         if not eligible:
             continue
